@@ -2,6 +2,7 @@
 Helper lemmas about list heaps (no property statements here; those live in Props/).
 -/
 import Asynkit.Model.Heap
+import Asynkit.Model.PQ
 
 namespace Asynkit
 
@@ -23,5 +24,140 @@ theorem sorted_prefix_append_heap {α} (lt : α → α → Bool) (p h : List α)
     exact (List.pairwise_iff_getElem.mp hp) ((i - 1) / 2) i hpar hip (by omega)
   · rw [List.getElem_append_right (by omega), List.getElem_append_left hpar]
     exact hc _ (List.getElem_mem _) _ (List.getElem_mem _)
+
+
+/-- `lt` is a strict weak order (what `heapq`/`sort` need of `__lt__`). -/
+structure StrictWeak {α} (lt : α → α → Bool) : Prop where
+  irrefl : ∀ a, lt a a = false
+  asymm : ∀ a b, lt a b = true → lt b a = false
+  trans : ∀ a b c, lt a b = true → lt b c = true → lt a c = true
+  negTrans : ∀ a b c, lt a b = false → lt b c = false → lt a c = false
+
+theorem entryLt_strictWeak {π} {plt : π → π → Bool} (h : StrictWeak plt) :
+    StrictWeak (Entry.lt plt) := by
+  constructor
+  · intro a; simp [Entry.lt, h.irrefl]
+  · intro a b; simp only [Entry.lt, Bool.or_eq_true, Bool.and_eq_true, Bool.not_eq_true', decide_eq_true_eq]
+    intro hab
+    rcases hab with hab | ⟨hba, hs⟩
+    · have := h.asymm _ _ hab; simp [this, hab]
+    · simp [hba]; intro _; omega
+  · intro a b c; simp only [Entry.lt, Bool.or_eq_true, Bool.and_eq_true, Bool.not_eq_true', decide_eq_true_eq]
+    intro hab hbc
+    rcases hab with hab | ⟨hba, hs⟩ <;> rcases hbc with hbc | ⟨hcb, hs'⟩
+    · left; exact h.trans _ _ _ hab hbc
+    · left
+      cases hac : plt a.pri c.pri with
+      | true => rfl
+      | false => have := h.negTrans _ _ _ hac hcb; rw [hab] at this; cases this
+    · left
+      cases hac : plt a.pri c.pri with
+      | true => rfl
+      | false => have := h.negTrans _ _ _ hba hac; rw [hbc] at this; cases this
+    · right; exact ⟨h.negTrans _ _ _ hcb hba, by omega⟩
+  · intro a b c; simp only [Entry.lt, Bool.or_eq_false_iff, Bool.and_eq_false_iff, Bool.not_eq_false', decide_eq_false_iff_not]
+    intro ⟨hab, hab'⟩ ⟨hbc, hbc'⟩
+    refine ⟨h.negTrans _ _ _ hab hbc, ?_⟩
+    rcases hab' with hba | hs
+    · left
+      cases hca : plt c.pri a.pri with
+      | true => rfl
+      | false => have := h.negTrans _ _ _ hbc hca; rw [hba] at this; cases this
+    · rcases hbc' with hcb | hs'
+      · left
+        cases hca : plt c.pri a.pri with
+        | true => rfl
+        | false => have := h.negTrans _ _ _ hca hab; rw [hcb] at this; cases this
+      · right; omega
+
+variable {α : Type} {lt : α → α → Bool}
+
+theorem isHeap_nil : IsHeap lt ([] : List α) := by intro i _ h; simp at h
+
+theorem isHeap_singleton (a : α) : IsHeap lt [a] := by
+  intro i hi h; simp at h; omega
+
+/-- the root of a heap is minimal -/
+theorem IsHeap.root_min (hs : StrictWeak lt) {l : List α} (hh : IsHeap lt l) :
+    ∀ i (h : i < l.length), lt l[i] (l[0]'(by omega)) = false := by
+  intro i
+  induction i using Nat.strongRecOn with
+  | _ i ih =>
+    intro h
+    by_cases hi : i = 0
+    · subst hi; exact hs.irrefl _
+    · have hp : (i - 1) / 2 < i := by omega
+      have h1 := hh i (by omega) h
+      have h2 := ih ((i - 1) / 2) hp (by omega)
+      exact hs.negTrans _ _ _ h1 h2
+
+theorem IsHeap.root_min_mem (hs : StrictWeak lt) {a : α} {l : List α} (hh : IsHeap lt (a :: l)) :
+    ∀ x ∈ a :: l, lt x a = false := by
+  intro x hx
+  obtain ⟨i, hi, rfl⟩ := List.getElem_of_mem hx
+  exact hh.root_min hs i hi
+
+/-- heaps are prefix-closed -/
+theorem IsHeap.take {l : List α} (hh : IsHeap lt l) (n : Nat) : IsHeap lt (l.take n) := by
+  intro i hi h
+  simp only [List.length_take] at h
+  simp only [List.getElem_take]
+  exact hh i hi (by omega)
+
+theorem IsHeap.dropLast {l : List α} (hh : IsHeap lt l) : IsHeap lt l.dropLast := by
+  rw [List.dropLast_eq_take]; exact hh.take _
+
+/-- a sorted list is a heap -/
+theorem Sorted.isHeap {l : List α} (hs : Sorted lt l) : IsHeap lt l := by
+  have := sorted_prefix_append_heap lt l [] hs (by simp) (by simp)
+  simpa using this
+
+
+theorem srtInsert_perm (x : α) (l : List α) : (Srt.insert lt x l).Perm (x :: l) := by
+  induction l with
+  | nil => simp [Srt.insert]
+  | cons y ys ih =>
+    simp only [Srt.insert]; split
+    · exact List.Perm.refl _
+    · exact (List.Perm.cons y ih).trans (List.Perm.swap x y ys)
+
+theorem srtSort_perm (l : List α) : (Srt.sort lt l).Perm l := by
+  induction l with
+  | nil => simp [Srt.sort]
+  | cons x xs ih => simp only [Srt.sort]; exact (srtInsert_perm x _).trans (List.Perm.cons x ih)
+
+theorem srtInsert_sorted (hs : StrictWeak lt) (x : α) {l : List α} (h : Sorted lt l) :
+    Sorted lt (Srt.insert lt x l) := by
+  induction l with
+  | nil => simp [Srt.insert, Sorted]
+  | cons y ys ih =>
+    have hy := List.pairwise_cons.mp h
+    simp only [Srt.insert]; split
+    · rename_i hxy
+      refine List.pairwise_cons.mpr ⟨?_, h⟩
+      intro z hz
+      rcases List.mem_cons.mp hz with rfl | hz
+      · exact hs.asymm _ _ hxy
+      · exact hs.negTrans _ _ _ (hy.1 z hz) (hs.asymm _ _ hxy)
+    · rename_i hxy
+      refine List.pairwise_cons.mpr ⟨?_, ih hy.2⟩
+      intro z hz
+      rcases List.mem_cons.mp ((srtInsert_perm x ys).subset hz) with rfl | hz
+      · simpa using hxy
+      · exact hy.1 z hz
+
+theorem srtSort_sorted (hs : StrictWeak lt) (l : List α) : Sorted lt (Srt.sort lt l) := by
+  induction l with
+  | nil => simp [Srt.sort, Sorted]
+  | cons x xs ih => exact srtInsert_sorted hs x ih
+
+/-- `HeapLib.Lawful` is satisfiable: the sort-everything heap library meets it. -/
+theorem sortedHeap_lawful (hs : StrictWeak lt) : (sortedHeap α).Lawful lt where
+  push_perm _ _ := srtSort_perm _
+  push_heap _ _ _ := (srtSort_sorted hs _).isHeap
+  pop_nil := rfl
+  pop_cons _ l := ⟨Srt.sort lt l, rfl, srtSort_perm _, fun _ => (srtSort_sorted hs _).isHeap⟩
+  heapify_perm _ := srtSort_perm _
+  heapify_heap _ := (srtSort_sorted hs _).isHeap
 
 end Asynkit
